@@ -1381,6 +1381,26 @@ def shrink(case):
         yield [kind, stype, ext, ["stream", resp[1][:-1], resp[2]], script]
 
 
+# ---------------------------------------------------------------- the source-level tie (tools/py2coq_c11.py)
+
+
+def extra_obligations(tier):
+    """The methods receive, send, close, accept, send_text, send_bytes, _raise_on_disconnect, receive_text, receive_bytes of
+    WebSocket (and WebSocketDisconnect.__init__) are translated, one by one, from the source in BAIZE_REPO as it is now
+    into the monad of C11/Model.v (statement by statement, in statement order: `await self._receive()` = srv_receive,
+    `await self._send(m)` = srv_send m, the two state attributes = get/set_cs, get/set_aps), and coqc re-checks, per
+    method, the part of C11/Translated.v about it (translated method = the model function, for every argument, state and
+    server script: same outcome, same state afterwards, same rest of the script, same trace) against the fresh
+    definitions.  One obligation per method: a method the translator refuses (not applicable, no alarm) does not hide
+    the others, except those that call it."""
+    import importlib.util
+    import os
+    spec = importlib.util.spec_from_file_location("py2coq_c11", os.path.join(core.VERIF, "tools", "py2coq_c11.py"))
+    py2coq_c11 = importlib.util.module_from_spec(spec)
+    spec.loader.exec_module(py2coq_c11)
+    return py2coq_c11.obligations(core.REPO, core.VERIF)
+
+
 if __name__ == "__main__":
     import sys
     core.main(sys.modules[__name__])
